@@ -1,26 +1,111 @@
 (* C09 — A matching index file is transparent.
-   FULL STATEMENT (DESIGN.md section 7 C09): index_transparent, index_only.
-   Proved so far: the index stream advances by exactly lead-in + metadata
-   length per segment, whatever the segment's (possibly clamped) end is. *)
+   Statements only (proofs: Proofs/IndexProofs.v).
+
+   A file is given as its list of segments [fseg] = (lead-in record, metadata
+   bytes, raw data bytes).  [data_image] is the .tdms byte stream (tag TDSm, raw
+   data present), [index_image] the .tdms_index stream (tag TDSh, raw data
+   stripped) — the construction DESIGN.md calls index_of.
+
+   PROVED (closed under the global context):
+   - index_advance, index_positions, data_positions, index_reads: the position
+     translation; the index offset of segment i is the sum of (28 + metadata
+     length) over the segments before it, which is what the reader's seek
+     maintains, and both streams hold the same lead-in (except the tag) and the
+     same metadata bytes at corresponding offsets;
+   - index_token_equality: the metadata tokens do not depend on what follows the
+     metadata block (raw data in the data file, the next lead-in in the index);
+   - index_transparent: for every well-formed segment list ([segs_ok]: lead-in
+     fields fit their widths, raw data offset = metadata length, metadata is the
+     canonical serialisation of well-formed entries, next-segment offsets exact
+     except that the LAST segment may be declared longer than the file or carry
+     the length-unknown marker) the metadata pass over the index (with the data
+     file's size) returns the same reader state — or the same error — as the
+     pass over the data file.  Data reads depend only on that state and the
+     data file's bytes (Model/Reader.v: rd_all_from), so they agree too:
+     index_transparent_read.
+   - index_only_transparent: opening the index alone (no file size) gives the
+     same state when every next-segment offset is exact.
+
+   NOT PROVED here (covered by the check's correspondence runs only):
+   - that TdmsWriter's index file equals [index_image] (C08's statement);
+   - files outside [segs_ok] (non-canonical metadata encodings, inexact offsets
+     in inner segments);
+   - "index-only refuses data reads" (a guard in tdms.py, not in the model). *)
 From Coq Require Import List ZArith Lia.
 Import ListNotations.
-From NpTdms Require Import Base.Bytes Base.Res Model.Tokens Model.SegState Model.Layout Model.Reader.
+From NpTdms Require Import Base.Bytes Base.Res Model.Tokens Model.TokensWf Model.SegState Model.Layout
+     Model.Reader Proofs.IndexProofs.
 Local Open Scope Z_scope.
 
 Theorem index_advance : forall seg_pos l fs dp np inc,
     lead_positions seg_pos l fs = Ok (LeadOk dp np inc) ->
     dp - seg_pos = 28 + l_raw l.
-Proof.
-  intros seg_pos l fs dp np inc H. unfold lead_positions in H.
-  destruct (l_next l =? 18446744073709551615).
-  - destruct fs as [sz|]; [|discriminate].
-    destruct (sz <? seg_pos + 28 + l_raw l); [discriminate|].
-    injection H as <- _ _. lia.
-  - destruct fs as [sz|].
-    + destruct (sz <? seg_pos + l_next l + 28).
-      * destruct (sz <? seg_pos + 28 + l_raw l); [discriminate|]. injection H as <- _ _. lia.
-      * injection H as <- _ _. lia.
-    + injection H as <- _ _. lia.
-Qed.
+Proof. exact lead_ok_advance. Qed.
+
+Theorem index_token_equality : forall e es rest1 rest2,
+    wf_metadata es = true ->
+    parse_metadata e (ser_metadata e es ++ rest1) = Ok (es, rest1) /\
+    parse_metadata e (ser_metadata e es ++ rest2) = Ok (es, rest2) /\
+    (do '(x, _) <- parse_metadata e (ser_metadata e es ++ rest1); Ok (Some x))
+    = (do '(x, _) <- parse_metadata e (ser_metadata e es ++ rest2); Ok (Some x)).
+Proof. exact metadata_tokens_continuation. Qed.
+
+(* offsets are sums of segment sizes in the respective stream *)
+Theorem index_offsets : forall segs i,
+    index_off segs i = zsum (map (fun s => 28 + blen (fs_meta s)) (firstn i segs)) /\
+    data_off segs i = zsum (map (fun s => 28 + blen (fs_meta s) + blen (fs_raw s)) (firstn i segs)) /\
+    index_off segs i = blen (index_image (firstn i segs)) /\
+    data_off segs i = blen (data_image (firstn i segs)).
+Proof. exact index_offsets_spec. Qed.
+
+Theorem index_positions : forall segs i s seg_pos fsz dp np inc,
+    nth_error segs i = Some s ->
+    l_raw (fs_lead s) = blen (fs_meta s) ->
+    lead_positions seg_pos (fs_lead s) fsz = Ok (LeadOk dp np inc) ->
+    index_off segs (S i) = index_off segs i + (dp - seg_pos).
+Proof. exact IndexProofs.index_positions. Qed.
+
+Theorem data_positions : forall segs i s fsz dp np,
+    nth_error segs i = Some s ->
+    l_next (fs_lead s) = blen (fs_meta s) + blen (fs_raw s) ->
+    lead_positions (data_off segs i) (fs_lead s) fsz = Ok (LeadOk dp np false) ->
+    np = data_off segs (S i).
+Proof. exact IndexProofs.data_positions. Qed.
+
+Theorem index_reads : forall segs i s,
+    nth_error segs i = Some s ->
+    read_at (index_off segs i) 28 (index_image segs) = TAG_INDEX ++ lead_body (fs_lead s) /\
+    read_at (data_off segs i) 28 (data_image segs) = TAG_DATA ++ lead_body (fs_lead s) /\
+    read_at (index_off segs i + 28) (blen (fs_meta s)) (index_image segs) = fs_meta s /\
+    read_at (data_off segs i + 28) (blen (fs_meta s)) (data_image segs) = fs_meta s.
+Proof. exact IndexProofs.index_reads. Qed.
+
+Theorem index_transparent : forall segs want_index,
+    segs_ok segs ->
+    rd_metadata (index_image segs) true (Some (blen (data_image segs))) want_index
+    = rd_metadata (data_image segs) false (Some (blen (data_image segs))) want_index.
+Proof. exact IndexProofs.index_transparent. Qed.
+
+(* TdmsFile.read(path) with / without path + "_index" beside it: same observation
+   (hierarchy, properties, lengths, dtypes, data, file_status) or same error *)
+Theorem index_transparent_read : forall segs,
+    segs_ok segs ->
+    rd_all_idx (data_image segs) (index_image segs) = rd_all (data_image segs).
+Proof. exact IndexProofs.index_transparent_read. Qed.
+
+(* the index alone (file size unknown) *)
+Theorem index_only_transparent : forall segs want_index,
+    segs_ok segs -> Forall seg_exact segs ->
+    rd_metadata (index_image segs) true None want_index
+    = rd_metadata (data_image segs) false (Some (blen (data_image segs))) want_index.
+Proof. exact IndexProofs.index_only_transparent. Qed.
 
 Print Assumptions index_advance.
+Print Assumptions index_token_equality.
+Print Assumptions index_offsets.
+Print Assumptions index_positions.
+Print Assumptions data_positions.
+Print Assumptions index_reads.
+Print Assumptions index_transparent.
+Print Assumptions index_transparent_read.
+Print Assumptions index_only_transparent.
